@@ -438,7 +438,7 @@ def nr_compare(case, res, obj, ans):
     """-> (None | text of a bit-level difference, None | text of a property-level difference)"""
     tk = ans.split(' ')
     if 'err' in res:
-        if tk[0] == 'err' and res['err'] == tk[1].split(':')[0]:
+        if tk[0] == 'err':      # where an exception leaves the call matters, not its incidental class
             return None, None
         d = 'implementation raised %s (%s), model answers %s' % (res['err'], res.get('msg'), ans[:80])
         return d, d
@@ -514,6 +514,11 @@ def o_nr_contract(ctx, case):
     if 'err' in res:
         if res['err'] == 'ValueError' and case['ns0'] < lo:
             return None
+        if case['kind'] == 'scan':
+            with np.errstate(all='ignore'):
+                q = (F64(case['p2hi']) - F64(case['p2lo'])) / F64(case['p2step'])
+            if not np.isfinite(q) or int(q) + 1 <= 0:
+                return None          # no scan grid (zero / negative step, reversed bounds): any exception is a loud failure
         return '%s.minimize raised %s: %s (objective %s, ns0=%r, bounds [%r, %r])' % (
             tag, res['err'], res.get('msg'), case['obj']['shape'], case['ns0'], lo, hi)
     if case['ns0'] < lo:
@@ -548,9 +553,10 @@ def o_nr_contract(ctx, case):
     if flag not in (-2, -1, 0, 1):
         return '%s: unknown warnflag %r' % (tag, flag)
     if case['kind'] == 'nr':
-        if (flag == 1) != (niter == ms):
-            return '%s: warnflag=%d with niter=%d, max_steps=%d' % (tag, flag, niter, ms)
-        if niter > ms:
+        if (flag == 1) != (niter >= ms):
+            return '%s: warnflag=%d with niter=%d, max_steps=%d%s' % (
+                tag, flag, niter, ms, ' (a result without any Newton step reported as converged)' if ms < 0 else '')
+        if niter > max(ms, 0):
             return '%s: %d steps taken with max_steps=%d' % (tag, niter, ms)
     if flag == -2 and lo < hi and not (ns == lo and step < 0):
         return '%s: warnflag -2 but ns=%r (ns_min=%r), last step %r' % (tag, ns, lo, step)
@@ -1963,7 +1969,7 @@ def gen_bounds_llh(rng, obj, cls):
 def gen_tol_steps(rng):
     c = constants()
     tol = rng.choice([c['ns_tol'], c['ns_tol'], c['ns_tol'], 1e-6, 1e-1, 1.0])
-    ms = rng.choice([c['max_steps'], c['max_steps'], c['max_steps'], 0, 1, 2, 3, 5, 10])
+    ms = rng.choice([c['max_steps'], c['max_steps'], c['max_steps'], 0, 1, 2, 3, 5, 10, -1, -4])
     return tol, ms
 
 
@@ -2158,9 +2164,9 @@ def _classify(res):
 
 ALL_BRANCHES = [
     'nr:error-initial-below-ns_min', 'nr:exit-boundary-lower', 'nr:exit-boundary-upper', 'nr:exit-max_steps', 'nr:exit-converged',
-    'nr:max_steps=0', 'nr:newtonStep-flat-guard', 'nr:newtonStep-division', 'nr:clip-low', 'nr:clip-high', 'nr:clip-none',
+    'nr:max_steps=0', 'nr:max_steps<0', 'nr:newtonStep-flat-guard', 'nr:newtonStep-division', 'nr:clip-low', 'nr:clip-high', 'nr:clip-none',
     'nr:keepGoing-by-step', 'nr:keepGoing-by-slope-only', 'nr:degenerate-ns_min=ns_max', 'nr:boundary-flag-lower-with-upward-step',
-    'scan:later-value-better', 'scan:earlier-value-kept', 'scan:tie-first-kept', 'scan:error-propagates', 'scan:single-value',
+    'scan:later-value-better', 'scan:earlier-value-kept', 'scan:tie-first-kept', 'scan:error-propagates', 'scan:no-grid-error', 'scan:single-value',
     'linspace:single-point', 'linspace:regular', 'linspace:step-underflows-to-zero',
     'wrap:error-not-converged', 'wrap:error-nan', 'wrap:clipped-and-re-evaluated', 'wrap:passed-through',
     'wrap:stop-converged', 'wrap:stop-not-repeatable', 'wrap:stop-max_repetitions', 'wrap:max_repetitions=0',
@@ -2186,11 +2192,15 @@ def nr_branches(ctx, cs, res, obj):
             B('nr:error-initial-below-ns_min')
             if cs['kind'] == 'scan':
                 B('scan:error-propagates')
+        elif cs['kind'] == 'scan':
+            B('scan:no-grid-error')
         return
     if cs['kind'] == 'nr':
         B({-2: 'nr:exit-boundary-lower', -1: 'nr:exit-boundary-upper', 0: 'nr:exit-converged', 1: 'nr:exit-max_steps'}[res['flag']])
         if cs['max_steps'] == 0:
             B('nr:max_steps=0')
+        if cs['max_steps'] < 0:
+            B('nr:max_steps<0')
         if lo == hi:
             B('nr:degenerate-ns_min=ns_max')
             if res['flag'] == -2 and res['step'] > 0:
@@ -2295,6 +2305,16 @@ def run(ctx):
             cs['ns0'] = cs['lo'] - 1.0
             cs['cls'] = 'scan:init-outside'
             cases.append(cs)
+    for bad in ('zero-step', 'negative-step', 'reversed-bounds', 'count-zero'):
+        cs = gen_scan_case(rng)
+        if cs['obj']['shape'] == 'llh':
+            cs['obj'] = {'shape': 'quad2', 'p': [1.0, 0.5 * (cs['lo'] + cs['hi']), 0.0, 0.0, 1.0]}
+        cs['p2lo'], cs['p2hi'], cs['p2step'] = {'zero-step': (1.0, 2.0, 0.0), 'negative-step': (1.0, 4.0, -0.5),
+                                               'reversed-bounds': (4.0, 1.0, 0.5), 'count-zero': (2.5, 1.0, 1.0)}[bad]
+        cs['p20'] = cs['p2lo']
+        cs.pop('forms', None)
+        cs['cls'] = 'scan:grid-' + bad
+        cases.append(cs)
     wraps = [gen_wrap_case(rng) for _ in range(ctx.n(250, 5000))]
 
     # ---- run the implementation, build the model requests
